@@ -376,7 +376,12 @@ def r3(R, repo):
   for vname, view in (('values', 'FrozenValuesView'), ('keys', 'FrozenKeysView')):
     g = mod.func('FrozenDict.' + vname)
     rets = [n for n in astu.body_walk(g.node) if isinstance(n, ast.Return)]
-    R.check(len(rets) == 1 and astu.src(rets[0].value) == '%s(self)' % view, key_of(g, 'view over self'), g,
+    over_private = len(rets) == 1 and isinstance(rets[0].value, ast.Call) and len(rets[0].value.args) == 1 and astu.src(rets[0].value.args[0]) in ('self._dict', 'self.__dict__["_dict"]') or \
+        (len(rets) == 1 and isinstance(rets[0].value, ast.Call) and astu.src(rets[0].value.func) == 'self._dict.' + vname)
+    if vname == 'values' and over_private:
+      R.fail(key_of(g, 'view over self'), (g, rets[0]), '`%s` iterates the private dict directly: nested dicts are handed out as the mutable originals instead of being wrapped in FrozenDict by __getitem__, so a caller can modify the frozen value in place' % astu.short(rets[0]))
+      continue
+    R.check(len(rets) == 1 and (astu.src(rets[0].value) == '%s(self)' % view or (vname == 'keys' and over_private)), key_of(g, 'view over self'), g,
             'FrozenDict.%s must return a view over the FrozenDict itself (element access through __getitem__)' % vname)
 
 
